@@ -105,6 +105,8 @@ func main() {
 	n := fs.Int("n", 100, "number of generated cases")
 	inputs := fs.String("inputs", "", "JSONL file of cases to run instead of generating")
 	mode := fs.String("mode", "mix", "generator mode")
+	rep := fs.Int("rep", 2, "api: sequential repetitions")
+	conc := fs.Int("conc", 0, "api: concurrent calls")
 	golden := fs.Bool("golden", true, "include the cases of /repo/testdata")
 	_ = fs.Parse(os.Args[2:])
 
@@ -120,6 +122,38 @@ func main() {
 			cases = append(cases, genEngineCases(*seed, *n, *mode)...)
 		}
 		runEngine(cases, *outDir)
+	case "gen":
+		var cases []Case
+		if *golden {
+			cases = append(cases, goldenCases(*repo)...)
+		}
+		cases = append(cases, genEngineCases(*seed, *n, *mode)...)
+		w := bufio.NewWriter(os.Stdout)
+		for _, c := range cases {
+			bs, _ := json.Marshal(c)
+			w.Write(bs)
+			w.WriteByte('\n')
+		}
+		w.Flush()
+	case "comments":
+		// file names on stdin -> (case ID generated (groups ...) (doc ...)) lines
+		sc := bufio.NewScanner(os.Stdin)
+		for sc.Scan() {
+			fmt.Println(commentCase(sc.Text()))
+		}
+	case "api":
+		runAPI(readCases(*inputs), *rep, *conc)
+	case "parses":
+		// reads file names from stdin, prints 1/0 per line
+		sc := bufio.NewScanner(os.Stdin)
+		for sc.Scan() {
+			bs, err := os.ReadFile(sc.Text())
+			if err == nil && parses(string(bs)) {
+				fmt.Println("1")
+			} else {
+				fmt.Println("0")
+			}
+		}
 	case "schema":
 		runSchema()
 	default:
